@@ -173,8 +173,12 @@ impl Wpcr {
         debug!("WPCR: Phase: {} rad", d[bin].arg());
 
         // Extract symbols.
+        // `samples_per_symbol` is the clock frequency in cycles per sample,
+        // so the burst holds about `len * samples_per_symbol` symbols.
+        // (Dividing instead asked for len^2/bin elements: terabytes for a
+        // long burst with few transitions, which aborted the process.)
         let mut syms =
-            Vec::with_capacity((samples.len() as Float / samples_per_symbol) as usize + 10);
+            Vec::with_capacity((samples.len() as Float * samples_per_symbol) as usize + 10);
         for s in samples {
             if clock_phase >= 1.0 {
                 clock_phase -= 1.0;
